@@ -158,5 +158,5 @@ Proof.
 Qed.
 
 (* every model command is carried by a variant of the Rust enum Command *)
-Lemma tag_is_variant c : In (tag c) command_variants.
-Proof. destruct c; vm_compute; tauto. Qed.
+Lemma tag_is_variant c : existsb (String.eqb (tag c)) command_variants = true.
+Proof. destruct c; vm_compute; reflexivity. Qed.
